@@ -125,6 +125,39 @@ def check_pair(u, v, xs, exps, rel, abs_, optional=False):
     return ("ok", None, None, nobs)
 
 
+_UNIT = None
+
+
+def accessor_path(u, v, xs, exps, rel, abs_):
+    """The documented second way of building a quantity: x * Unit().<symbol> on ONE accessor object per process,
+    with an in-place .to(v) on the bare attribute in between (a legal use) - the quantities built before and
+    after must convert alike.  -> (status, failure, detail, nobs)"""
+    global _UNIT
+    from scinumtools.units import Unit
+    if not u.isidentifier():
+        return ("ok", None, None, 0)
+    if _UNIT is None:
+        _UNIT = Unit()
+    nobs = 0
+    for phase in ("fresh accessor attribute", "after .to() on the bare attribute"):
+        for x, e in zip(xs, exps):
+            try:
+                q = x * getattr(_UNIT, u)
+                unit0 = q.baseunits.expression
+                got = float(q.value(v)); nobs += 1
+            except Exception as ex:
+                return ("violation", "refused_valid", {"expected": e, "observed": repr(ex)[:160], "x": x,
+                                                       "clause": f"x * Unit().{u} is the quantity x {u} ({phase})"}, nobs + 1)
+            if unit0 != u or not A.close(got, e, rel, abs_):
+                return ("violation", "wrong_value", {"expected": [e, u], "observed": [got, unit0], "x": x,
+                                                     "clause": f"x * Unit().{u} is the quantity x {u} and converts by the formula ({phase})"}, nobs)
+        try:
+            getattr(_UNIT, u).to(v)
+        except Exception:
+            pass
+    return ("ok", None, None, nobs)
+
+
 def round_trip(u, v, xs, rel, abs_):
     from scinumtools.units import Quantity
     for x in xs:
@@ -147,6 +180,8 @@ def replay_temp(job):
     xs = [r["x"][0] / r["x"][1] for r in recs]
     exps = [r["expect"][0] / r["expect"][1] for r in recs]
     st, failure, det, nobs = check_pair(u, v, xs, exps, 1e-9, 1e-9)
+    if st == "ok" and all(r["mach_ok"] for r in recs):
+        st, failure, det, n2 = accessor_path(u, v, xs[:3], exps[:3], 1e-9, 1e-9); nobs += n2
     if st == "ok":
         rt = round_trip(u, v, xs, 1e-9, 1e-9); nobs += len(xs)
         if rt[0] == "violation":
@@ -181,6 +216,8 @@ def replay_log(rec):
         if np.isfinite(e) and abs(e) < 1e300:
             xs.append(float(x)); exps.append(e)
     st, failure, det, nobs = check_pair(u, v, xs, exps, rel, abs_, optional=rec["optional"])
+    if st == "ok" and not rec["optional"]:
+        st, failure, det, n2 = accessor_path(u, v, xs[:3], exps[:3], rel, abs_); nobs += n2
     if st == "ok":
         # a linear magnitude must come back relatively exact (it may be 1e-20); a level may be 0
         rt = round_trip(u, v, xs, max(rel, 1e-9), 0.0 if rec["positive"] else 1e-9); nobs += len(xs)
@@ -340,7 +377,8 @@ def run(replay=None):
                 "rationals, exhaustive); logarithmic: every documented bel-type unit on the lattice ref*10^n, n in -20..20 (TLC, exact), every "
                 "documented pair of sides with all admissible prefixes on the log side and none/m/u/k on the linear side (levels -200..+150 dB, linear magnitudes 1e-21..1e20), fraction forms with "
                 f"{len(RESTS if tier == 'quick' else RESTS_T)} denominators, same-unit and derived dB<->dB pairs, on 9 lattice points and 10-12 off-lattice inputs each, level "
-                "sums and differences in every bel-type unit, also of a quantity with itself and of a sum with itself; non-trivial = distinct (pair, input) with different units / distinct log pairs / sums",
+                "sums and differences in every bel-type unit, also of a quantity with itself and of a sum with itself; single-symbol sources also built as "
+                "x * Unit().<symbol> on one accessor object per process, before and after an in-place .to() on the bare attribute; non-trivial = distinct (pair, input) with different units / distinct log pairs / sums",
         "samples": samples, "exhaustive": True, "classes": classes,
         "tlc": {"temperature": [r1.distinct, r1.violated or "ok"], "log": [r2.distinct, r2.violated or "ok"]},
     })
